@@ -221,6 +221,7 @@ def _c09_extra():
         return f"/-- translated from `{T}`:`safe_divide` -/\n" + _safe_divide_build(Kernel("safe_divide", T, "safe_divide", [], ""), fn)
 
     attempt("safe_divide", b_safe_divide, _SAFE_DIVIDE_FALLBACK)
+    from . import c09_tables as tbl      # data-flow based readers (follow helper extraction / hoisted locals)
 
     def module_env():
         env = _self_ints(parse_file(REPO / UT), "DirectModule")
@@ -277,7 +278,7 @@ def _c09_extra():
         return _plan_def("estimate_rss_plan", f"`{MT}`:`EstimateSensitivityMapModule.forward` (RSS) + `{T}`:`root_sum_of_squares`",
                          (sq, e, axes, uns))
 
-    attempt("estimate_rss_plan", b_rss_plan, "def estimate_rss_plan : Bool × Int × List Int × List Int := normPlan\n")
+    attempt("estimate_rss_plan", tbl.b_rss_plan, "def estimate_rss_plan : Bool × Int × List Int × List Int := normPlan\n")
 
     # --- the final renormalisation of the data pipeline ----------------------------------------
     def b_norm_plan():
@@ -294,7 +295,7 @@ def _c09_extra():
             raise Untranslatable("sensitivity_map_norm computation not found")
         return _plan_def("estimate_norm_plan", f"`{MT}`:`EstimateSensitivityMapModule.forward` (renormalisation)", (*norm, uns))
 
-    attempt("estimate_norm_plan", b_norm_plan, "def estimate_norm_plan : Bool × Int × List Int × List Int := normPlan\n")
+    attempt("estimate_norm_plan", tbl.b_norm_plan, "def estimate_norm_plan : Bool × Int × List Int × List Int := normPlan\n")
 
     def b_order():
         fn = fwd()
@@ -302,7 +303,7 @@ def _c09_extra():
         return (f"/-- translated from `{MT}`:`EstimateSensitivityMapModule.forward`: order of the RSS branch and the tail -/\n"
                 f"def estimate_order : List String := {_lean_strs(ev)}\n")
 
-    attempt("estimate_order", b_order, "def estimate_order : List String := estimateOrder\n")
+    attempt("estimate_order", tbl.b_order, "def estimate_order : List String := estimateOrder\n")
 
     # --- the engine ---------------------------------------------------------------------------
     def eng_fn():
@@ -325,7 +326,7 @@ def _c09_extra():
             raise Untranslatable("sensitivity_map_norm computation not found")
         return _plan_def("engine_norm_plan", f"`{ENG}`:`MRIModelEngine.compute_sensitivity_map`", (*norm, uns))
 
-    attempt("engine_norm_plan", b_eng_plan, "def engine_norm_plan : Bool × Int × List Int × List Int := normPlan\n")
+    attempt("engine_norm_plan", tbl.b_eng_plan, "def engine_norm_plan : Bool × Int × List Int × List Int := normPlan\n")
 
     def b_eng_order():
         fn, env = eng_fn()
@@ -346,7 +347,7 @@ def _c09_extra():
                 f"/-- refinement only when `shape[coil_dim] > engine_multicoil_gt` -/\n"
                 f"def engine_multicoil_gt : Int := {thr}\n")
 
-    attempt("engine_order", b_eng_order,
+    attempt("engine_order", tbl.b_eng_order,
             "def engine_order : List String := engineOrder\ndef engine_multicoil_gt : Int := 1\n")
     # --- every sensitivity-map site under direct/nn ------------------------------------------------
     def b_sites():
